@@ -1590,8 +1590,13 @@ func TestVerifC13Refusal(t *testing.T) {
 			}
 		}
 		inBatch := false
-		if err != nil {
+		if err != nil && mustFail {
 			// inside a batch of valid commands: the whole batch is refused, nothing is applied
+			// (claimed for refusals of the staging loop: ownership, slot id, decode. A
+			// well-formed payload with invalid arguments, or an apply-delta envelope whose
+			// original is refused, may fail as late as commit time, after a stale
+			// conditional command of the same batch made ApplyBatch split the batch and
+			// apply the preceding commands one at a time - see the structured test)
 			good := rapid.SliceOfN(verifC13CmdGen(), 1, 4).Draw(rt, "good")
 			pos := rapid.IntRange(0, len(good)).Draw(rt, "badPosition")
 			var cmds []multiraft.Command
@@ -1625,6 +1630,7 @@ func TestVerifC13Refusal(t *testing.T) {
 		k.SetNonTrivial(index > 0 && ((err != nil && inBatch) || (envelope && err == nil && envelopeChanged && firstOutside > 0 && envelopeInBatch)))
 		k.Label("refusal: " + strings.SplitN(kind, ":", 2)[0])
 		k.LabelIf(err == nil && !envelope, "refusal: malformed candidate was still a valid command")
+		k.LabelIf(err != nil && !mustFail, "refusal: well-formed payload refused while staging/committing (judged alone only)")
 		if envelope {
 			k.Label("apply-delta envelope around " + firstClass)
 			k.LabelIf(err != nil, "apply-delta envelope refused (no side effects)")
